@@ -2,6 +2,7 @@ import Tw.Model.Snap
 import Tw.Gen.Snap
 import Tw.Proofs.SnapDelta
 import Tw.Proofs.SnapWire
+import Tw.Proofs.SnapRef3
 
 /-!
 # C09 — applying a snapshot delta reproduces the target snapshot
@@ -88,6 +89,26 @@ what `CSnapshotDelta::CreateDelta` emits — applied to `a` also yields `b` with
 theorem apply_reference_delta_partial {a b : RawSnap} {d : Delta} (ha : a.WF) (hb : b.WF)
     (hag : SizesAgree a b) (hd : RefDelta a b d) : applyDelta a d = .ok (b, []) :=
   applyDelta_of_refDelta ha hb hag hd
+
+/-- The delta the bundled reference computes (`refCreateDelta` = the model of
+`CSnapshotDelta::CreateDelta`, tied to the C++ code by the correspondence run; snapshots handed to
+the reference builder in ascending unsigned key order; the empty output stands for the empty
+delta) is read by `Delta::read_from_ints` without warning, is a reference delta in the sense
+above, and therefore — applied here — yields `b`. -/
+theorem reference_delta_applies_partial (objSize : Nat → Option Nat) {a b : RawSnap} (ha : a.WF) (hb : b.WF)
+    (hag : SizesAgree a b) (hok : SizesOk objSize b.items) :
+    ∃ d, readDelta objSize (.ints
+        (if (refCreateDelta objSize (unsignedOrder a.items) (unsignedOrder b.items)).isEmpty then [0, 0, 0]
+         else refCreateDelta objSize (unsignedOrder a.items) (unsignedOrder b.items))) = .ok (d, []) ∧
+      RefDelta a b d ∧ applyDelta a d = .ok (b, []) := by
+  obtain ⟨d, h1, h2⟩ := refCreateDelta_refDelta objSize ha hb hag hok
+  exact ⟨d, h1, h2, applyDelta_of_refDelta ha hb hag h2⟩
+
+/-- A snapshot serializes to the same integers as the reference builder produces for the same
+items (inserted in ascending unsigned key order, which is the order `write_impl` sorts into). -/
+theorem snapshot_ints_eq_reference {s : RawSnap} (h : s.WF) :
+    s.writeInts = some (refSnapInts (unsignedOrder s.items)) :=
+  writeInts_eq_reference h
 
 /-- `Delta::create` panics exactly on the pairs excluded above (D15). -/
 theorem create_panics_iff (a b : RawSnap) : createDelta a b = none ↔ ¬ SizesAgree a b :=
